@@ -1067,6 +1067,23 @@ func (b *Bounds) proveSlice(t *ssa.Slice) BoundsSite {
 	return s
 }
 
+// RangeAt returns the interval the integer value v is known to lie in just before instruction in.
+func (b *Bounds) RangeAt(in ssa.Instruction, v ssa.Value) (lo, hi int64, ok bool) {
+	z := b.zoneBefore(in.Block(), in)
+	if z.infeasible() {
+		return 0, 0, true
+	}
+	t, off, okl := lin(v)
+	if !okl {
+		return 0, 0, false
+	}
+	lo, hi = z.bounds(t)
+	return satAdd(lo, off), satAdd(hi, off), true
+}
+
+// TypeRange exposes the value range of an integer type.
+func (b *Bounds) TypeRange(t types.Type) (int64, int64, bool) { return b.typeRange(t) }
+
 // ProveLEConst reports whether v <= c holds throughout block blk.
 func (b *Bounds) ProveLEConst(blk *ssa.BasicBlock, v ssa.Value, c int64) bool {
 	z := b.zoneAt(blk)
